@@ -437,11 +437,11 @@ class Inliner:
                     for st in b["stmts"]:
                         rv = st["rv"]
                         src = None
-                        if rv["k"] == "use" and rv["op"].get("k") in ("copy", "move"):
+                        if rv["k"] == "use" and rv["op"].get("k") in ("copy", "move") and not rv["op"]["place"]["proj"]:
                             src = rv["op"]["place"]["local"]
-                        elif rv["k"] == "ref":
+                        elif rv["k"] == "ref" and all(e["k"] == "deref" for e in rv["place"]["proj"]):
                             src = rv["place"]["local"]
-                        elif rv["k"] == "cast" and rv["a"].get("k") in ("copy", "move"):
+                        elif rv["k"] == "cast" and rv["a"].get("k") in ("copy", "move") and not rv["a"]["place"]["proj"]:
                             src = rv["a"]["place"]["local"]
                         if src in derived and not st["place"]["proj"]:
                             derived.setdefault(st["place"]["local"], derived[src])
@@ -451,7 +451,7 @@ class Inliner:
                 t = b["term"]
                 if t["k"] == "call":
                     for a in t["args"]:
-                        if a.get("k") in ("copy", "move") and a["place"]["local"] in derived:
+                        if a.get("k") in ("copy", "move") and a["place"]["local"] in derived and not a["place"]["proj"]:
                             out.add(derived[a["place"]["local"]])
         return out
 
